@@ -141,6 +141,17 @@ func (sc *scratch) offer(v1 []types.Transaction, v2 []types.V2Transaction, opt o
 		return nil, false
 	}
 	w.postValidate(nil, snap, sc.s, b, bs, verr)
+	if verr == nil {
+		// any block that passes validation can be applied and reverted
+		if p := guard(func() {
+			consensus.ApplyBlock(sc.s, b, bs, w.genesis.Timestamp)
+		}); p != "" {
+			w.violate("C10", "apply-panic", fmt.Sprintf("ApplyBlock panicked on a block that passed ValidateBlock (height %d): %s", sc.child(), p))
+		} else if p := guard(func() { consensus.RevertBlock(sc.s, b, bs) }); p != "" {
+			w.violate("C10", "revert-panic", fmt.Sprintf("RevertBlock panicked on a block that passed ValidateBlock (height %d): %s", sc.child(), p))
+		}
+		w.stats.Inc("probe.apply-revert-of-valid-probe")
+	}
 	return verr, true
 }
 
